@@ -210,7 +210,17 @@ func c09NewFrom(tier string) *core.Space {
 				if err != nil {
 					return "newfrom:" + errClass(err)
 				}
-				o := observeConfig(c, ucfg.PathSep(".")) + " has="
+				// the same input with numeric keys enabled (numeric single-segment keys are names
+				// then, whichever key is normalized first)
+				nk := "numkeys:"
+				if c2, err := ucfg.NewFrom(mk(maps[i]), ucfg.PathSep("."), ucfg.EnableNumKeys(true)); err != nil {
+					nk += errClass(err)
+				} else {
+					f := c2.GetFields()
+					sort.Strings(f)
+					nk += fmt.Sprint(f, c2.IsArray(), " ", observeConfig(c2, ucfg.PathSep("."), ucfg.EnableNumKeys(true)))
+				}
+				o := observeConfig(c, ucfg.PathSep(".")) + " " + nk + " has="
 				// which settings exist (an explicit null is a setting)
 				for _, p := range []string{"a", "b", "a.b", "a.c", "a.d", "a.b.c", "a.b.d", "a.0", "0"} {
 					if h, err := c.Has(p, -1, ucfg.PathSep(".")); err == nil && h {
@@ -407,7 +417,13 @@ func c09Env() *core.Space {
 	envs := []M{
 		{"x": "envx", "e": M{"y": "${x}", "z": "lit", "w": "${e.y}"}},
 		{"x": "envx", "e": M{"y": "<${x}>", "z": "${x}", "w": "${x}"}},
+		// (the last two are given as two Env configurations, see below)
+		{"x": "envx", "e": M{"y": "${x}", "z": "lit", "w": "${e.y}"}},
+		{"x": "envx", "e": M{"y": "<${x}>", "z": "${x}", "w": "${x}"}},
 	}
+	// split: the settings of e are spread over two Env configurations (y, w in the first, z in the
+	// second), so that different references are answered by different environments
+	split := func(i int) bool { return i >= 2 }
 	radices := []int{len(menu), len(menu), len(menu), len(envs)}
 	return &core.Space{
 		Name: "references-with-env",
@@ -424,11 +440,23 @@ func c09Env() *core.Space {
 				if err != nil {
 					return "newfrom:" + errClass(err)
 				}
-				env, err := ucfg.NewFrom(envs[d[3]], opts...)
-				if err != nil {
-					return "newfrom-env:" + errClass(err)
+				envData := envs[d[3]]
+				var uopts []ucfg.Option
+				if split(d[3]) {
+					e := envData["e"].(M)
+					e1, err1 := ucfg.NewFrom(M{"x": envData["x"], "e": M{"y": e["y"], "w": e["w"]}}, opts...)
+					e2, err2 := ucfg.NewFrom(M{"x": envData["x"], "e": M{"z": e["z"]}}, opts...)
+					if err1 != nil || err2 != nil {
+						return "newfrom-env:error"
+					}
+					uopts = append([]ucfg.Option{ucfg.Env(e1), ucfg.Env(e2)}, opts...)
+				} else {
+					env, err := ucfg.NewFrom(envData, opts...)
+					if err != nil {
+						return "newfrom-env:" + errClass(err)
+					}
+					uopts = append([]ucfg.Option{ucfg.Env(env)}, opts...)
 				}
-				uopts := append([]ucfg.Option{ucfg.Env(env)}, opts...)
 				var m map[string]interface{}
 				if err := cfg.Unpack(&m, uopts...); err != nil {
 					return "unpack:error"
